@@ -60,7 +60,7 @@ impl Property for C19 {
         "exploration"
     }
     fn rule(&self) -> String {
-        "A case = secure server with max_clients 1-3 in states empty / pending present / full / busy, up to 6 clients holding good, foreign-key, foreign-protocol, wrong-host and short-lived tokens; honest handshake steps build the state; adversarial presentations take any request or response datagram ever emitted by a not-yet-connected client and present it from its own or another unproven address exactly, padded to any length up to 1400, truncated, bit-flipped, prefix-modified or repeated, plus random bytes; the clock is stepped past token expiry. Oracle per datagram from an address that is not connected: the result is None, or one datagram to the same address strictly shorter than the input (PacketToSend or the payload inside ClientConnected); inputs that carry neither a valid token (by provenance: unmodified or only padded request minted with the server's key, protocol, host and unexpired) nor a valid response (unmodified response of the client pending at that address) get None; never a Payload or a ClientDisconnected. Non-trivial: the input decodes as a request or response kind and is >= 18 bytes. Distinct = hash of the decoded operation trace.".into()
+        "A case = secure server with max_clients 1-3 in states empty / pending present / full / busy, up to 6 clients holding good, foreign-key, foreign-protocol, wrong-host and short-lived tokens; honest handshake steps build the state; adversarial presentations take any request or response datagram ever emitted by a not-yet-connected client and present it from its own or another unproven address exactly, padded to any length up to 1400, truncated, bit-flipped, prefix-modified or repeated, plus random bytes; the clock is stepped past token expiry. Oracle per datagram from an address that is not connected: the result is None, or one datagram to the same address strictly shorter than the input (PacketToSend or the payload inside ClientConnected); inputs that carry neither a valid token (by provenance: unmodified or only padded request minted with the server's key, protocol, host and unexpired, and not already used - answered - from a different address) nor a valid response (unmodified response of the client pending at that address) get None; never a Payload or a ClientDisconnected. Non-trivial: the input decodes as a request or response kind and is >= 18 bytes. Distinct = hash of the decoded operation trace.".into()
     }
     fn assumptions(&self) -> Vec<String> {
         vec!["'valid' is decided by provenance and the harness's knowledge of key, protocol id, host list and expiry".into()]
@@ -69,7 +69,7 @@ impl Property for C19 {
         PbtCfg { cases: tier.pick(400_000, 15_000_000), max_len: tier.pick(500, 1500), shrink_ms: 120_000 }
     }
     fn required_labels(&self) -> Vec<&'static str> {
-        vec!["valid_request", "padded_request", "valid_response", "invalid_token_request", "server_full", "denied_reply", "challenge_reply", "connected_reply", "expired_request", "request_other_address"]
+        vec!["valid_request", "padded_request", "valid_response", "invalid_token_request", "server_full", "denied_reply", "challenge_reply", "connected_reply", "expired_request", "request_other_address", "bound_token_other_address"]
     }
     fn run_choices(&self, ctx: &mut Ctx) -> Outcome {
         let mut nw = NetWorld::new(ctx.src.u16() as u64);
@@ -96,6 +96,8 @@ impl Property for C19 {
         let start = nw.now;
         let max_ops = ctx.tier.pick(60, 200);
         let mut ops = 0;
+        // connect token (by owner) -> the address whose request with it was first answered (the server binds a token to it)
+        let mut bound: std::collections::HashMap<usize, SocketAddr> = Default::default();
         while !ctx.src.exhausted() && ops < max_ops {
             ops += 1;
             let op = match ctx.src.weighted(&[10, 14, 3, 3]) {
@@ -110,6 +112,9 @@ impl Property for C19 {
                             let proven = connected_addrs(&nw).contains(&d.src);
                             nw.pool[did].presented += 1;
                             let out = nw.server_recv(0, d.src, &d.bytes);
+                            if d.kind == 0 && matches!(out, SrvOut::Send { .. }) {
+                                bound.entry(c).or_insert(d.src);
+                            }
                             if !proven {
                                 let expired = (nw.now - start).as_secs() >= 2 && kinds[c] == TokKind::ShortLived;
                                 let valid = matches!(kinds[c], TokKind::Good | TokKind::ShortLived) && !expired;
@@ -196,6 +201,24 @@ impl Property for C19 {
                         _ => None,
                     };
                     judge(&nw, from, bytes.len(), &out, valid, &format!("{how} of datagram {i} (kind {}) of client {owner} ({:?}) presented from address {from_idx}", d.kind, kinds[owner]))?;
+                    if d.kind == 0 && valid {
+                        match bound.get(&owner) {
+                            Some(a) if *a != from => {
+                                // the token was already used from another address: not a valid token for this sender
+                                ctx.label("bound_token_other_address");
+                                if !matches!(out, SrvOut::None) {
+                                    return Err(Fail::new(
+                                        "reply_to_token_of_other_address",
+                                        format!("a request carrying a connect token already used from {a} was answered at {from} ({how}, server has {} of {max_clients} clients): {out:?}", nw.servers[0].server.connected_clients()),
+                                    ));
+                                }
+                            }
+                            None if matches!(out, SrvOut::Send { .. }) => {
+                                bound.insert(owner, from);
+                            }
+                            _ => {}
+                        }
+                    }
                     if bytes.len() >= 18 && (bytes[0] & 0x0F == 0 || bytes[0] & 0x0F == 3) {
                         ctx.nontrivial = true;
                     }
